@@ -10,10 +10,21 @@
   bounded by `lateral_spec_partial` below, and checked on the implementation by a direct law.
 -/
 import Csvq.Lemmas.Rel
+import Csvq.Props.C06
 import Csvq.Gen.RelFacts
 import Csvq.Ref.RelFacts
 namespace Csvq.C03
 open Csvq Csvq.Rel
+
+/-- an integer cell (float view left out so that `decide` stays small) -/
+def cI (n : Int) : Profile :=
+  { raw := .int n, int? := some n, flt? := none, dt? := none, bool? := none, strU? := none, tern := .U }
+/-- `left.0 = right.0` on rows of width 1 + 1 -/
+def eq01 : Cond := fun r =>
+  match r with
+  | [a, b] => evalComparison .eq a b
+  | _ => .U
+
 
 /-! ## WHERE: a row is kept iff its condition is TRUE; a single source keeps its row order -/
 
@@ -625,8 +636,246 @@ theorem recursive_working_view_first (ctes temps : List String) (r n : String) (
   simp [tableKind, h]
 
 /-- a condition without open references evaluates, with the short-circuits of eval.go, to the total value -/
-theorem lazy_eval_agrees (lw : Nat) (r : Row) (c : CondE) (h : condPure c = true) :
-    evalCondE lw r c = .ok (evalCond lw r c) := evalCondE_pure lw r c h
+theorem lazy_eval_agrees (subs : SubEnv) (lw : Nat) (r : Row) (c : CondE) (h : condPure c = true) :
+    evalCondE subs lw r c = .ok (evalCond lw r c) := evalCondE_pure subs lw r c h
+
+/-! ## sub-queries inside expressions (scalar, EXISTS, IN / ANY / ALL), also correlated -/
+
+/-- EXISTS is "at least one record": TRUE or FALSE, never UNKNOWN -/
+theorem exists_iff_nonempty (res : Nat × List Row) :
+    (existsOf res = .T ↔ res.2 ≠ []) ∧ (existsOf res = .F ↔ res.2 = []) ∧ existsOf res ≠ .U := by
+  unfold existsOf
+  cases h : res.2 <;> simp [Tern.ofBool]
+
+/-- scalar sub-query: no record is NULL, one record is its value, more records are an error;
+    more than one field is an error whatever the records are -/
+theorem scalar_subquery_spec (w : Nat) (hw : w ≤ 1) (r r' : Row) (rest : List Row) :
+    scalarOf (w, []) = .ok nullP ∧ scalarOf (w, [r]) = .ok ((r[0]?).getD nullP) ∧
+    scalarOf (w, r :: r' :: rest) = .error .tooManyRecords ∧
+    ∀ rows, scalarOf (w + 2, rows) = .error .tooManyFields := by
+  have h1 : ¬ (1 < w) := by omega
+  refine ⟨by simp [scalarOf, h1], by simp [scalarOf, h1], by simp [scalarOf, h1], ?_⟩
+  intro rows
+  simp [scalarOf]
+
+/-- `x IN (q)` is `x = ANY (q)`; `x NOT IN (q)` is `x <> ALL (q)` — on every record, errors included -/
+theorem in_subquery_eq_any (subs : SubEnv) (lw : Nat) (r : Row) (a : Expr) (s : Nat) :
+    evalCondE subs lw r (.inSub false a s) = evalCondE subs lw r (.anySub .eq a s) ∧
+    evalCondE subs lw r (.inSub true a s) = evalCondE subs lw r (.allSub .ne a s) := by
+  constructor <;> simp only [evalCondE, evalIn] <;> rfl
+
+/-- in csvq's three-valued logic `x NOT IN (l)` IS the negation of `x IN (l)` (De Morgan over the Kleene
+    connectives, early exits of the loops included) -/
+theorem not_in_eq_not_in (v : Profile) (l : List Profile) : evalIn true v l = (evalIn false v l).not := by
+  show evalAll .ne v l = (evalAny .eq v l).not
+  rw [C06.all_spec, C06.any_spec]
+  have : l.map (evalComparison .ne v) = (l.map (evalComparison .eq v)).map Tern.not := by
+    rw [List.map_map]
+    apply List.map_congr_left
+    intro p _
+    exact evalComparison_ne_not v p
+  rw [this]
+  exact tern_foldl_and_not _ .F
+
+/-- over an empty sub-query IN is FALSE and NOT IN is TRUE, also for a NULL left-hand side -/
+theorem in_empty_subquery (v : Profile) : evalIn false v [] = .F ∧ evalIn true v [] = .T := C06.in_empty v
+
+/-- what is NOT true: "x NOT IN (l) holds iff no element of l equals x".  With a NULL in the list and no equal
+    element the answer is UNKNOWN (the record is dropped by a WHERE) — for IN as well as for NOT IN -/
+theorem not_in_with_null_counterexample :
+    evalIn true (cI 1) [cI 2, nullP] = .U ∧ evalIn false (cI 1) [cI 2, nullP] = .U ∧
+    evalIn true (cI 1) [cI 2] = .T := by decide
+
+/-- a correlated EXISTS in WHERE is the semi-join: a left record is kept iff it has a partner -/
+theorem exists_correlated_eq_semijoin (w : Nat) (L R : List Row) (c : Cond) :
+    filterSpec L (fun l => existsOf (w, R.filter (fun r => c (l ++ r) = .T)))
+      = L.filter (fun l => R.any (fun r => c (l ++ r) = .T)) := by
+  unfold filterSpec existsOf
+  apply List.filter_congr
+  intro l _
+  have := filter_isEmpty_eq (fun r => decide (c (l ++ r) = .T)) R
+  simp only [this]
+  cases R.any (fun r => decide (c (l ++ r) = .T)) <;> simp [Tern.ofBool]
+
+/-- … and that is: the left halves of the inner join (every kept record has a row in the join, and only those) -/
+theorem semijoin_mem_iff (L R : List Row) (c : Cond) (l : Row) :
+    l ∈ L.filter (fun l => R.any (fun r => c (l ++ r) = .T)) ↔
+      l ∈ L ∧ ∃ r, r ∈ R ∧ (l ++ r) ∈ innerSpec L R c := by
+  simp only [List.mem_filter, List.any_eq_true, decide_eq_true_eq]
+  constructor
+  · rintro ⟨hl, r, hr, hT⟩
+    exact ⟨hl, r, hr, (inner_mem_iff L R c _).mpr ⟨l, hl, r, hr, hT, rfl⟩⟩
+  · rintro ⟨hl, r, hr, hm⟩
+    obtain ⟨l', hl', r', hr', hT, heq⟩ := (inner_mem_iff L R c _).mp hm
+    refine ⟨hl, ?_⟩
+    -- the merged row may split differently; the condition holds on the merged row itself
+    exact ⟨r, hr, by rw [heq]; exact hT⟩
+
+/-- a correlated scalar sub-query in the select list, evaluated record by record, equals the LEFT JOIN formulation
+    when every left record has at most one partner (unique key): the partner's column, or NULL -/
+theorem scalar_correlated_eq_left_join (wl wr : Nat) (L R : List Row) (c : Cond) (j : Nat) (hj : j < wr)
+    (hL : ∀ l, l ∈ L → l.length = wl)
+    (huniq : ∀ l, l ∈ L → (R.filter (fun r => c (l ++ r) = .T)).length ≤ 1) :
+    scalarPerRow L R c j =
+      .ok ((leftSpec wr L R c).map (fun x => x.take wl ++ [(x[wl + j]?).getD nullP])) := by
+  induction L with
+  | nil => rfl
+  | cons l ls ih =>
+    have ihs := ih (fun x hx => hL x (List.mem_cons_of_mem _ hx)) (fun x hx => huniq x (List.mem_cons_of_mem _ hx))
+    have hlen := hL l (List.mem_cons_self ..)
+    have hu := huniq l (List.mem_cons_self ..)
+    unfold scalarPerRow leftSpec
+    simp only [List.flatMap_cons, List.map_append]
+    unfold leftSpec at ihs
+    rw [ihs]
+    cases hm : R.filter (fun r => c (l ++ r) = .T) with
+    | nil =>
+      simp only [List.map_nil, scalarOf, Nat.lt_irrefl, if_false, List.isEmpty_nil, if_true, List.map_cons,
+        List.nil_append]
+      have h1 : (l ++ nulls wr).take wl = l := by rw [← hlen]; simp
+      have h2 : ((l ++ nulls wr)[wl + j]?).getD nullP = nullP := by
+        rw [← hlen]; exact getElem?_append_nulls l wr j hj
+      rw [h1, h2]
+      rfl
+    | cons r rs =>
+      rw [hm] at hu
+      have hrs : rs = [] := by
+        cases rs with
+        | nil => rfl
+        | cons _ _ => simp at hu
+      subst hrs
+      simp only [List.map_cons, List.map_nil, scalarOf, Nat.lt_irrefl, if_false, List.isEmpty_cons,
+        Bool.false_eq_true, List.nil_append]
+      have h1 : (l ++ r).take wl = l := by rw [← hlen]; simp
+      have h2 : (l ++ r)[wl + j]? = r[j]? := by rw [← hlen]; exact getElem?_append_right' l r j
+      rw [h1, h2]
+      simp
+
+/-- without the uniqueness the two formulations differ: two partners make the scalar sub-query an error while the
+    join has two rows -/
+theorem scalar_vs_join_counterexample :
+    scalarPerRow [[cI 1]] [[cI 1], [cI 1]] eq01 0 = .error .tooManyRecords ∧
+    leftSpec 1 [[cI 1]] [[cI 1], [cI 1]] eq01 = [[cI 1, cI 1], [cI 1, cI 1]] := ⟨by rfl, by decide⟩
+
+/-- correlation: a reference is a column of the query's own header when it has one of that name — the records
+    of the enclosing queries are consulted only when the own header does not know the name -/
+theorem own_header_shadows_outer (h : List HField) (outer : List (List HField × Row)) (v : Option String) (n : String)
+    (i : Nat) (hi : fieldIndex h v n = .ok i) : resolveExprEnv h outer (.ref v n) = .col 0 i := by
+  simp [resolveExprEnv, hi]
+
+/-- … and the enclosing queries innermost first -/
+theorem outer_records_innermost_first (h1 : List HField) (r1 : Row) (rest : List (List HField × Row))
+    (v : Option String) (n : String) (i : Nat) (hi : fieldIndex h1 v n = .ok i) :
+    resolveOuter v n ((h1, r1) :: rest) = .ok ((r1[i]?).getD nullP) := by
+  simp [resolveOuter, hi]
+
+/-! ## set operators: chains -/
+
+/-- UNION ALL is associative -/
+theorem union_all_assoc {κ : Type} [DecidableEq κ] (key : Row → κ) (A B C : List Row) :
+    setOp key .union true (setOp key .union true A B) C = setOp key .union true A (setOp key .union true B C) := by
+  simp [setOp, List.append_assoc]
+
+/-- UNION (distinct) is associative: both groupings are the first-occurrence de-duplication of A ++ B ++ C -/
+theorem union_assoc {κ : Type} [DecidableEq κ] (key : Row → κ) (A B C : List Row) :
+    setOp key .union false (setOp key .union false A B) C = setOp key .union false A (setOp key .union false B C) := by
+  simp only [setOp, Bool.false_eq_true, if_false]
+  rw [dedupBy_absorb, dedupBy_absorb_right, List.append_assoc]
+
+/-- a UNION ALL inside a UNION does not matter -/
+theorem union_absorbs_union_all {κ : Type} [DecidableEq κ] (key : Row → κ) (A B C : List Row) :
+    setOp key .union false (setOp key .union true A B) C = setOp key .union false (setOp key .union false A B) C := by
+  simp only [setOp, Bool.false_eq_true, if_false, if_true]
+  rw [dedupBy_absorb]
+
+/-- INTERSECT ALL is associative -/
+theorem intersect_all_assoc {κ : Type} [DecidableEq κ] (key : Row → κ) (A B C : List Row) :
+    setOp key .intersect true (setOp key .intersect true A B) C
+      = setOp key .intersect true A (setOp key .intersect true B C) := by
+  simp only [setOp, if_true, List.filter_filter]
+  apply List.filter_congr
+  intro r _
+  rw [keyIn_filter, Bool.and_comm]
+
+/-- what a record of EXCEPT ALL / INTERSECT ALL is: a left record whose key is absent from / present on the right
+    (every copy of it - these are not multiset operations) -/
+theorem except_intersect_all_mem {κ : Type} [DecidableEq κ] (key : Row → κ) (A B : List Row) (r : Row) :
+    (r ∈ setOp key .except true A B ↔ r ∈ A ∧ keyIn key B r = false) ∧
+    (r ∈ setOp key .intersect true A B ↔ r ∈ A ∧ keyIn key B r = true) := by
+  simp [setOp, List.mem_filter]
+
+def kI : Row → List (Option Int) := fun r => r.map (fun p => p.int?)
+
+/-- EXCEPT is not associative, and the precedence matters: INTERSECT binds tighter than UNION / EXCEPT, so
+    `A UNION ALL B INTERSECT ALL C` is A ∪ (B ∩ C), which differs from (A ∪ B) ∩ C -/
+theorem set_operator_grouping_counterexamples :
+    setOp kI .except true (setOp kI .except true [[cI 1]] [[cI 1]]) [[cI 1]]
+      ≠ setOp kI .except true [[cI 1]] (setOp kI .except true [[cI 1]] [[cI 1]]) ∧
+    setOp kI .union true [[cI 1]] (setOp kI .intersect true [[cI 2]] [[cI 3]])
+      ≠ setOp kI .intersect true (setOp kI .union true [[cI 1]] [[cI 2]]) [[cI 3]] := by decide
+
+/-! ## LATERAL: the right side per left record -/
+
+/-- `l CROSS JOIN LATERAL (SELECT … FROM R WHERE c)` is the inner join; with LEFT JOIN LATERAL … ON TRUE the left join:
+    the records are those of the per-record application (the header is right when there is a left record, see
+    `lateral_spec_partial` / `lateral_header_counterexample` for the empty left table, finding F15) -/
+theorem lateral_rows_eq_join (w wr : Nat) (L R : List Row) (c : Cond) :
+    (lateralImpl L (fun l => (w, (R.filter (fun r => c (l ++ r) = .T)).map (fun r => l ++ r)))).2 = innerSpec L R c ∧
+    (lateralImpl L (fun l => (w,
+        let m := R.filter (fun r => c (l ++ r) = .T)
+        if m.isEmpty then [l ++ nulls wr] else m.map (fun r => l ++ r)))).2 = leftSpec wr L R c := by
+  constructor <;> simp [lateralImpl, innerSpec, leftSpec, List.flatMap]
+
+/-! ## `*` and `view.*` after USING / NATURAL -/
+
+/-- the header after a USING / NATURAL join: first the join columns (no view, flagged), then the other columns of both
+    sides in their order — this is the order `SELECT *` lists them in -/
+theorem using_header_shape (w : Nat) (pairs : List (Nat × Nat)) (h : List HField) :
+    ∃ joined rest, usingHeader w pairs h = joined ++ rest ∧
+      (∀ f, f ∈ joined → f.isJoin = true ∧ f.view = "") ∧ rest.Sublist h := by
+  refine ⟨_, _, rfl, ?_, ?_⟩
+  · intro f hf
+    obtain ⟨i, _, hi⟩ := List.mem_filterMap.mp hf
+    cases hh : h[i]? with
+    | none => simp [hh] at hi
+    | some g => simp [hh] at hi; subst hi; exact ⟨rfl, rfl⟩
+  · unfold restIndices
+    have : ∀ (p : Nat → Bool) (n : Nat), (((List.range n).filter p).filterMap (fun i => h[i]?)).Sublist (h.take n) := by
+      intro p n
+      induction n with
+      | zero => simp
+      | succ n ih =>
+        rw [List.range_succ, List.filter_append, List.filterMap_append]
+        by_cases hn : n < h.length
+        · rw [List.take_succ_eq_append_getElem hn]
+          apply List.Sublist.append ih
+          by_cases hp : p n = true
+          · simp [hp, hn]
+          · simp [hp]
+        · have : h.take (n + 1) = h.take n := by
+            rw [List.take_of_length_le (by omega), List.take_of_length_le (by omega)]
+          rw [this]
+          have hnone : h[n]? = none := by simp; omega
+          by_cases hp : p n = true
+          · simp [hp, hnone]; exact ih
+          · simp [hp]; exact ih
+    exact (this _ w).trans (List.take_sublist _ _)
+
+/-- `t.*` (t a table alias) never lists a merged join column: those carry no view name -/
+theorem view_star_skips_join_columns (w : Nat) (pairs : List (Nat × Nat)) (h : List HField) (v : String) (hv : v ≠ "")
+    (f : HField) (hf : f ∈ viewStarFields (usingHeader w pairs h) v) : f ∈ h ∧ f.view = v := by
+  unfold viewStarFields at hf
+  obtain ⟨hm, hvw⟩ := List.mem_filter.mp hf
+  have hvw' : f.view = v := by simpa using hvw
+  refine ⟨?_, hvw'⟩
+  unfold usingHeader at hm
+  rcases List.mem_append.mp hm with hj | hr
+  · obtain ⟨i, _, hi⟩ := List.mem_filterMap.mp hj
+    cases hh : h[i]? with
+    | none => simp [hh] at hi
+    | some g => simp [hh] at hi; subst hi; exact absurd hvw'.symm hv
+  · obtain ⟨i, _, hi⟩ := List.mem_filterMap.mp hr
+    exact List.mem_of_getElem? hi
 
 /-! ## select list: every item on its own -/
 
@@ -799,15 +1048,6 @@ theorem gen_calcMinimumRequired_pos (i1 i2 d : Int) (hd : 1 ≤ d) : 1 ≤ Gen.c
       exact Int.le_ediv_of_mul_le (by omega) (by omega)
 
 /-! ## non-vacuity -/
-
-/-- an integer cell (float view left out so that `decide` stays small) -/
-def cI (n : Int) : Profile :=
-  { raw := .int n, int? := some n, flt? := none, dt? := none, bool? := none, strU? := none, tern := .U }
-/-- `left.0 = right.0` on rows of width 1 + 1 -/
-def eq01 : Cond := fun r =>
-  match r with
-  | [a, b] => evalComparison .eq a b
-  | _ => .U
 
 example : filterImpl [[[cI 1], [cI 2]], [], [[cI 1]]] (fun r => evalComparison .eq (r.headD nullP) (cI 1))
     = [[cI 1], [cI 1]] := by decide
